@@ -7,6 +7,7 @@ import (
 	"go/token"
 	"go/types"
 	"os"
+	"regexp"
 	"sort"
 	"strings"
 
@@ -257,7 +258,13 @@ func runC07(r *Run, p *Prog) {
 			fmt.Fprintf(os.Stderr, "G7 pkg splice at %v what=%s spliced=%d sameVar=%v repl=%q\n", p.Fset.Position(pkgSplice.Pos), pkgSplice.Dyn.what, len(spliced), sameVar, pkgSplice.Dyn.repl)
 		}
 		d := pkgSplice.Dyn
-		under := d.first != nil && d.first['_'] || d.rest != nil && d.rest['_']
+		// '_' may come from the keyword suffix only (`name + "_"` as the last operation, directly or as one of the values
+		// a helper returns): a '_' that a replacement puts inside the name, or that the name's source can contain, is not
+		whatNoSuffix := strings.ReplaceAll(d.what, `+"_"`, "")
+		under := regexp.MustCompile(`"[^"]*_[^"]*"`).MatchString(whatNoSuffix)
+		if !strings.Contains(d.what, `+"_"`) {
+			under = under || d.first != nil && d.first['_'] || d.rest != nil && d.rest['_']
+		}
 		for _, rp := range d.repl {
 			if strings.Contains(rp, "_") {
 				under = true
@@ -267,6 +274,53 @@ func runC07(r *Run, p *Prog) {
 			r.Ob("G7", root, "the output file name (the package name) contains no '_' besides the keyword suffix", pkgSplice.Pos, !under,
 				"the name "+d.what+" can contain '_' inside: for an interface name whose last word is `test`, a GOOS or a GOARCH the file is *_test.go or *_<GOOS/GOARCH>.go, which go build ignores or excludes - the emitted file does not build as a package")
 		}
+	})
+	// ---- G9: a composite literal of a type declared from the description (`&<ErrorName>{}`) type-checks only if that
+	// type is declared as a struct: an enum-typed error is declared `type X string`. The template may emit such a
+	// literal only under a test that the described type is a struct.
+	r.Guard("G9", func() {
+		n := 0
+		for _, sp := range w.Splices {
+			if sp.Mode != lmCode || !strings.HasPrefix(sp.Next, "{") || !(strings.HasPrefix(sp.Dyn.what, "Error.Name") || strings.HasPrefix(sp.Dyn.what, "Alias.Name")) {
+				continue
+			}
+			n++
+			guarded := false
+			for _, fd := range w.funcs {
+				if sp.Pos < fd.Pos() || sp.Pos > fd.End() {
+					continue
+				}
+				var stack []ast.Node
+				ast.Inspect(fd, func(nd ast.Node) bool {
+					if nd == nil {
+						stack = stack[:len(stack)-1]
+						return true
+					}
+					stack = append(stack, nd)
+					if nd.Pos() <= sp.Pos && sp.Pos <= nd.End() {
+						switch x := nd.(type) {
+						case *ast.IfStmt:
+							if x.Body.Pos() <= sp.Pos && sp.Pos <= x.Body.End() {
+								if c := types.ExprString(x.Cond); strings.Contains(c, "TypeStruct") && strings.Contains(c, "==") {
+									guarded = true
+								}
+							}
+						case *ast.CaseClause:
+							for _, e := range x.List {
+								if strings.Contains(types.ExprString(e), "TypeStruct") {
+									guarded = true
+								}
+							}
+						}
+					}
+					return true
+				})
+			}
+			r.Ob("G9", sp.Fn, "composite literal of the declared type "+sp.Dyn.what+" is emitted only for struct types", sp.Pos, guarded,
+				"`"+sp.Dyn.what+"{...}` is emitted without a test that the described type is a struct: an enum-typed error (or alias) is declared as a string type, and the literal does not type-check - the generated file does not compile")
+		}
+		r.Stat("G9_composite_literals", n)
+		r.Ob("G9", root, "emitted composite literals of declared types were examined", w.funcs[root].Pos(), true, fmt.Sprintf("%d", n))
 	})
 	// ---- G8: the code reports, up to trailing newlines, the description text it was generated from
 	r.Guard("G8", func() {
